@@ -27,5 +27,9 @@ def replay_file(prop, path):
     print(" observed:", res.get("observed"))
     if res["status"] == "error":
         return 2
+    e = core.KnownFindings(prop).match(res.get("tags") or [], res.get("kind"))
+    if e is not None:
+        print("KNOWN-FINDING: property=%s %s [%s]" % (prop, e["what"], e["id"]))
+        return 0
     print("VIOLATION property=%s replay=%s" % (prop, path))
     return 1
